@@ -340,8 +340,9 @@ def r_traversal(repo, rep, R='R7.4'):
                         target = a[2]
                     elif a[0] == 'elem' and a[1] in (A(N(p), 'children'), ('call', N('enumerate'), (A(N(p), 'children'),), ())):
                         target = 'each-child'
-                    elif a[0] == 'unpack' and a[1][0] == 'elem' and a[1][1] == ('call', N('enumerate'), (A(N(p), 'children'),), ()):
-                        target = 'each-child'
+                    elif a[0] == 'unpack' and a[2] == 1 and a[1][0] == 'elem' and a[1][1][0] == 'call' and a[1][1][1] == N('enumerate') \
+                            and a[1][1][2] and a[1][1][2][0] == A(N(p), 'children'):
+                        target = 'each-child'       # enumerate(node.children[, start]): the second component is the child
                 st.data.setdefault('rec', []).append(target or show(args[0])[:40] if args else '?')
             if f == N('map') and t[2] and t[2][0] in (N(fn.name), ('func', fn.name, id(fn))) and len(t[2]) > 1 and t[2][1] == A(N(p), 'children'):
                 st.data.setdefault('rec', []).append('each-child')
